@@ -202,7 +202,8 @@ class C06Engine(PairedEngine):
         facts = self.facts_of(full)
         if B is None or full.stopped:
             return viol, facts
-        amap = app_of_conns(spec["steps"])
+        # which app a connection belongs to is what it actually bound to in the full run
+        amap = {c: a for c, a in full.conn_app.items() if a is not None}
         keep = []
         for st in spec["steps"]:
             if "c" in st and amap.get(st["c"], B) != B:
